@@ -892,7 +892,10 @@ impl<'a> Run<'a> {
             if self.stop { return; }
             if let (Some((_, seen_expiry)), true) = (got, self.readable(key)) {
                 if seen_expiry != expected_expiry {
-                    self.fail(&["C08", "C09"], format!("C08/expiry-differs-after-write/{}/{}", op.shape(), state.name()),
+                    // a deadline earlier than requested means the key will be hidden / swept before its time-to-live has elapsed (C03 as well)
+                    let early = match (seen_expiry, expected_expiry) { (Some(seen), Some(expected)) => seen < expected, (Some(_), None) => true, _ => false };
+                    let props: &[&'static str] = if early { &["C08", "C09", "C03"] } else { &["C08", "C09"] };
+                    self.fail(props, format!("C08/expiry-differs-after-write/{}/{}", op.shape(), state.name()),
                               format!("after {} key {} has expiry {:?}, expected {:?}", op.shape(), key, seen_expiry, expected_expiry));
                 }
             }
